@@ -655,3 +655,15 @@ CHECKS["C04"]["text"] += (
 CHECKS["C06"]["text"] += (
     " A quarter of the histories are also observed through a hierarchy "
     "child that is refreshed before every observation.")
+CHECKS["C08"]["text"] += (
+    " One input holds a stored feature with invalid values (and, like all "
+    "inputs, no stored summaries): what every stored feature reports as "
+    "minimum, maximum and mean is compared before and after each task.")
+CHECKS["C05"]["text"] += (
+    " Every law is recorded on every built-in table; the law "
+    "'medium-spelling' runs through every documented name of every medium "
+    "in the given and the all-lower-case spelling.")
+CHECKS["C10"]["text"] += (
+    " The content of an output that exists after a fault is every stored "
+    "scalar feature, compared with the fault-free output; up to 200 "
+    "operations every fault point is taken in the quick tier too.")
